@@ -7,7 +7,7 @@ import random
 from .. import core, gen, sx
 from .. import pymach as pm
 
-THEOREMS = ['C13.match_sound', 'C13.match_respects_seed', 'C13.match_complete', 'C13.matchList_sound',
+THEOREMS = ['C13.match_sound', 'C13.match_respects_seed', 'C13.match_complete', 'C13.match_complete_partial', 'C13.match_incomplete_two_lists', 'C13.matchList_sound',
             'C13.matchList_empty_succeeds', 'C13.head_transparent']
 
 
